@@ -27,6 +27,9 @@ RULE = (
     "the same oracle. non-trivial = schedule with >=3 context switches actually taken on a tree with "
     "properties or tuple items; distinct = canon(case)"
 )
+RULE += (
+    ' One family holds container defaults (array of objects, nested dict/list) on the shared tree, with thread values that omit them.'
+)
 ASSUMPTIONS = [
     "interleavings at line granularity of pure-Python statham frames under the GIL; C-level operations are atomic; no claim for free-threaded builds",
     "the free-running stress can only miss violations, never invent them (if the property holds no schedule can produce a mismatch)",
@@ -67,6 +70,25 @@ def cases(draw):
         if recipe["kind"] == "Object":
             recipe["name"] = "Dep"
             recipe["props"] = []
+    elif draw(st.integers(0, 4)) == 0:
+        # CONTAINER defaults (one list/dict object owned by the shared tree): every call that omits the property
+        # converts that same object, possibly at the same moment as another thread
+        line = {"id": 9201, "kind": "Object", "kw": {}, "name": "Line", "props": [
+            {"name": "sku", "source": None, "required": False, "element": {"id": 9202, "kind": "String", "kw": {}}},
+            {"name": "qty", "source": None, "required": False, "element": {"id": 9203, "kind": "Integer", "kw": {"default": 1}}}]}
+        lines_default = draw(st.sampled_from([[{"sku": "A-1"}], [{"sku": "A"}, {"sku": "B", "qty": 2}], [{}], []]))
+        meta_default = draw(st.sampled_from([{"a": [1, {"b": 2}]}, {"k": {"k": {"k": [1, 2, 3]}}}, [[1], [2, [3]]], {}]))
+        recipe = {"id": 9200, "kind": draw(st.sampled_from(["Object", "Element"])), "kw": {}, "props": [
+            {"name": "lines", "source": None, "required": False, "element":
+                {"id": 9204, "kind": "Array", "kw": {"default": lines_default}, "sub": {"items": line}}},
+            {"name": "meta", "source": draw(st.sampled_from([None, "meta-data"])), "required": False, "element":
+                {"id": 9205, "kind": draw(st.sampled_from(["Element", "Element", "AnyOf"])), "kw": {"default": meta_default}}},
+            {"name": "n", "source": None, "required": False, "element": {"id": 9206, "kind": "Integer", "kw": {}}}]}
+        if recipe["props"][1]["element"]["kind"] == "AnyOf":
+            recipe["props"][1]["element"]["elements"] = [{"id": 9207, "kind": "Array", "kw": {}},
+                                                         {"id": 9208, "kind": "Element", "kw": {}}]
+        if recipe["kind"] == "Object":
+            recipe["name"] = "Order"
     schema = R.to_schema(recipe)
     n = draw(st.integers(2, 4))
     # threads draw (with repetition) from one small pool, so that the same value is validated by
@@ -75,6 +97,8 @@ def cases(draw):
     if "dependencies" in canon(schema) and recipe.get("id") == 9100:
         pool += [{"a": 1}, {"b": 1}, {"c": 1, "d": 2}, {"a": 1, "b": 2, "c": 3, "d": 4, "e": 5}, {"a": 1, "e": 1},
                  {"d": 1}, {"b": 1, "a": 2}]
+    if recipe.get("id") == 9200:
+        pool = [{}, {}, {"n": 1}, {"n": 2}, {"lines": []}, {"meta": 5}] + pool[:2]
     if "format" in canon(schema):
         strs = ["12345678-1234-5678-1234-567812345678", "not-a-uuid", "1990-12-31T23:59:60Z", "yesterday", "ab", "abc"]
         pool += draw(st.lists(st.sampled_from(strs), min_size=2, max_size=3))
